@@ -48,18 +48,21 @@ inductive Mut where
   | cb (i : Nat)
   | flip (pos bit : Nat)
   | cut (k : Nat)
+  | cbflip (i pos bit : Nat)
 
 def Mut.describe : Mut → String
   | .id => "intact file"
   | .cb i => s!"callback failing at record {i}"
   | .flip p b => s!"bit {b} of byte {p} flipped"
   | .cut k => s!"file cut after {k} bytes"
+  | .cbflip i p b => s!"callback failing at record {i} and bit {b} of byte {p} (in that block's sync marker) flipped"
 
 def expandMuts : List Sexp → Option (List Mut)
   | [] => some []
   | .list [.atom "id"] :: r => do pure (.id :: (← expandMuts r))
   | .list [.atom "cb", i] :: r => do pure (.cb (← asNat i) :: (← expandMuts r))
   | .list [.atom "flip", p, b] :: r => do pure (.flip (← asNat p) (← asNat b) :: (← expandMuts r))
+  | .list [.atom "cbflip", i, p, b] :: r => do pure (.cbflip (← asNat i) (← asNat p) (← asNat b) :: (← expandMuts r))
   | .list [.atom "fliprange", lo, hi] :: r => do
     let lo ← asNat lo; let hi ← asNat hi
     let fl := (List.range (hi - lo)).flatMap fun d => (List.range 8).map fun b => Mut.flip (lo + d) b
@@ -215,6 +218,14 @@ def judgeValid (c : FileCase) (it : Intact) (m : Mut) (del : List String) (res :
       else if del != all.take (i + 1) then some s!"callback failing at record {i}: wrong records delivered"
       else none
     else if res != "ok" ∨ del != all then some "callback never failing: file not read completely" else none
+  | .cbflip i _ _ =>
+    -- the damaged marker comes after the record in the stream: the callback's error stops the reading first
+    if i < all.length then
+      if res == "ok" then some s!"{m.describe}: ReadFile returned nil"
+      else if res != "cberr" then some s!"{m.describe}: the callback's error was not returned unchanged (result {res})"
+      else if del != all.take (i + 1) then some s!"{m.describe}: {del.length} callbacks were made, reading must stop at record {i}"
+      else none
+    else none
   | .cut k =>
     let complete := (it.exp.zip it.blocks).flatMap fun (e, b) => if b.payEnd ≤ k then e else []
     let boundary := k == it.hdrLen || it.blocks.any (fun b => b.stop == k)
@@ -337,6 +348,7 @@ def c07c08 (forCuts : Bool) (op : String) (args : List Sexp) : Verdict :=
           let input : Bytes := match m with
             | .id | .cb _ => c.file
             | .flip p b => flipBit c.file p b
+            | .cbflip _ p b => flipBit c.file p b
             | .cut k => c.file.take k
           if res == "skipped" then acc else
           match ids.mapM (fun i => c.recs[i]?) with
@@ -361,7 +373,7 @@ def c07c08 (forCuts : Bool) (op : String) (args : List Sexp) : Verdict :=
                 let mw := (walkFile input).map (·.2) |>.getD []
                 (ov.filterMap fun (i, e) => (mw[i]?).map fun l => (l.payload, e)) ++ baseTbl
               let X := mkExt tbl c.json decode
-              let cb : Nat → Option Unit := match m with | .cb i => fun j => if j == i then some () else none | _ => fun _ => none
+              let cb : Nat → Option Unit := match m with | .cb i | .cbflip i _ _ => fun j => if j == i then some () else none | _ => fun _ => none
               let o := readFile X (input.length + 1) cb input
               let mdel := o.delivered.map renderGoVal
               let mres := resClass o.res
@@ -383,6 +395,7 @@ def c07c08 (forCuts : Bool) (op : String) (args : List Sexp) : Verdict :=
             | some .id => if c.muts.length > 1 then "intact+callback" else "single"
             | some (.cb _) => "callback"
             | some (.cut _) => "cuts"
+            | some (.cbflip _ _ _) => "callback+damaged-marker"
             | some (.flip p _) =>
               match intact with
               | some it =>
